@@ -328,6 +328,7 @@ type State struct {
 	xregs   map[ssa.Value]Val // registers defined inside a loop that are live after it
 	dead    bool
 	held    map[string]*Term // ghost: lock held-set (key: lock identity string) -> Bool term
+	kbase   map[string]*Term // per heap key: allocation watermark when the key was last written (references stored in it are older)
 }
 
 func (st *State) clone() *State {
@@ -345,6 +346,12 @@ func (st *State) clone() *State {
 		n.xregs = make(map[ssa.Value]Val, len(st.xregs))
 		for k, v := range st.xregs {
 			n.xregs[k] = v
+		}
+	}
+	if st.kbase != nil {
+		n.kbase = make(map[string]*Term, len(st.kbase))
+		for k, x := range st.kbase {
+			n.kbase[k] = x
 		}
 	}
 	if st.held != nil {
